@@ -213,6 +213,7 @@ class Mgr:
         self.sent = []               # (handle, abstract frame) in emission order
         self.tasks = {}              # wid -> task
         self.escaped = []            # exceptions that escaped on_pdu (event index, type name)
+        self.peer_ok = True          # the peer has followed the rules under which the property is claimed
         for psm in cfg.get('le', []):
             self.mgr.create_le_credit_based_server(
                 l2cap.LeCreditBasedChannelSpec(psm=psm, mtu=MTU, mps=MPS, max_credits=SERVER_CREDITS))
@@ -278,10 +279,57 @@ class Mgr:
                 self.escaped.append([len(self.events), type(e).__name__])
             return False
         self.events.append(['Recv', h, a])
+        if not self.peer_follows_rules(h, a):
+            self.peer_ok = False
         try:
             self.mgr.on_pdu(self.conn(h), cid, pdu)
         except Exception as e:
             self.escaped.append([len(self.events) - 1, type(e).__name__])
+        return True
+
+    def peer_follows_rules(self, h, a):
+        """The assumptions on the peer under which the property is claimed (ev_ok of the model,
+        restated over the implementation's state): evaluated before the frame is handled."""
+        from bumble import l2cap
+        LS = l2cap.LeCreditBasedChannel.State
+        CS = l2cap.ClassicChannel.State
+        m = self.mgr
+        chans = m.channels.get(h, {})
+        le = m.le_coc_channels.get(h, {})
+
+        def is_le(c):
+            return hasattr(c, 'drained')
+        k = a[0]
+        if k == 'DiscReq':
+            c = chans.get(a[2])
+            return not (c is not None and is_le(c) and c.state in (LS.INIT, LS.CONNECTING))
+        if k == 'DiscRsp':
+            c = chans.get(a[3])
+            if c is not None and not is_le(c) and a[2] == c.destination_cid and a[3] == c.source_cid:
+                return c.state == CS.WAIT_DISCONNECT
+            return True
+        if k == 'LeRsp':
+            reqs = m.le_coc_requests.get(h)
+            r = reqs.get(a[1]) if isinstance(reqs, dict) else None
+            if r is None:
+                return True
+            c = chans.get(r.source_cid)
+            if c is not None and not is_le(c):
+                return False
+            return a[4] != 0 or a[2] not in le
+        if k == 'EnhRsp':
+            p = m.pending_credit_based_connections.get(h, {}).get(a[1])
+            if p is None or a[3] != 0:
+                return True
+            return len(a[4]) == len(p[1]) and len(set(a[4])) == len(a[4]) and not (set(a[4]) & set(le))
+        if k == 'EnhReq':
+            return len(set(a[4])) == len(a[4])
+        if k in ('ConnRsp', 'ConfRsp'):
+            c = chans.get(a[3] if k == 'ConnRsp' else a[2])
+            return c is None or not is_le(c)
+        if k == 'ConfReq':
+            c = chans.get(a[2])
+            return c is None or not is_le(c)
         return True
 
     def ev_down(self, h):
@@ -544,7 +592,7 @@ class World:
                 for cid, c in d.items():
                     if not current(c):
                         bad.append(('stale-le_coc-deadlink', f'{name(c)} of a dead link is in le_coc_channels[{h}][{cid}]'))
-                    elif not le_open(c):
+                    elif not le_open(c) and (M.peer_ok or closed(c)):
                         bad.append(('stale-le_coc', f'{name(c)} is {c.state.name} but still in le_coc_channels[{h}][{cid}]'))
                     elif c.destination_cid != cid or c.connection.handle != h:
                         bad.append(('misfiled-le_coc', f'{name(c)} (destination cid {c.destination_cid}) filed under le_coc_channels[{h}][{cid}]'))
@@ -576,7 +624,7 @@ class World:
                 if not isinstance(c, l2cap.ClassicChannel) and c.state == LS.DISCONNECTED and not c.drained.is_set():
                     bad.append(('drain-stuck-closed', f'{name(c)} is DISCONNECTED, drain() would wait forever'))
             # pending request tables
-            for k, v in m.le_coc_requests.items():
+            for k, v in (m.le_coc_requests.items() if M.peer_ok else ()):
                 items = [(k, i, r) for i, r in v.items()] if isinstance(v, dict) else [(None, k, v)]
                 for h, ident, r in items:
                     owner = [c for c in M.chans if current(c) and not isinstance(c, l2cap.ClassicChannel)
@@ -596,7 +644,7 @@ class World:
                 if t.done():
                     continue
                 kind, h, ep, uid = self.task_info[(mi, w)]
-                if self.epoch.get((mi, h), 0) != ep:
+                if self.epoch.get((mi, h), 0) != ep and (M.peer_ok or kind == 'close'):
                     bad.append(('waiter-stuck-linkdown', f'mgr{mi}: {kind} call #{w} still pending after its link went down'))
                 elif kind == 'close' and closed(M.chans[uid]):
                     bad.append(('waiter-stuck-closed', f'mgr{mi}: disconnect() #{w} still pending, channel is {M.chans[uid].state.name}'))
@@ -669,7 +717,8 @@ def gen_foreign_frame(rng, w, m, h, ltype):
             return ['LeRsp', q[1], rng.choice(fresh), rng.choice([0, 1, 5]), rng.choice([0] * 4 + [2, 4])]
         if q[0] == 'EnhReq' and ltype == 'le':
             res = rng.choice([0] * 4 + [2, 4])
-            n = len(q[4])
+            cur = M.mgr.pending_credit_based_connections.get(h, {}).get(q[1])
+            n = len(cur[1]) if cur is not None else len(q[4])
             return ['EnhRsp', q[1], rng.choice([0, 1, 5]), res, fresh[:n] if res == 0 and len(fresh) >= n else []] \
                 if (res != 0 or len(fresh) >= n) else ['Reject', q[1]]
         if q[0] == 'ConnReq' and ltype == 'cl':
@@ -1013,6 +1062,9 @@ CORPUS = [
     # D09f: the response and the loss of the link are processed in the same loop iteration
     ('D09f', 'pair', ['le'], [['open', 0, 1, 0, 0x80, 1, 0], ['deliver', 0, 0], ['deliver', 0, 1, 0], ['down', 0]]),
     ('D09f-enh', 'pair', ['le'], [['open', 0, 1, 1, 0x80, 2, 0], ['deliver', 0, 0], ['deliver', 0, 1, 0], ['down', 0]]),
+    # model/implementation disagreement found by the thorough campaign: abort() of the orphaned
+    # initiator channel of a mode mismatch (WAIT_DISCONNECT, filed nowhere) closes it
+    ('abort-orphan', 'pair', ['cl'], [['open', 0, 1, 2, 0x1003, 1, 0], ['flush'], ['abort', 0, 0]]),
     # D07 seen from the tables: enhanced server channel, peer CIDs differ from ours, close
     ('D07-tables', 'foreign', ['le', 'le'], [['inject', 0, 1, ['EnhReq', 7, 0x80, 2, [0x50, 0x51]]], ['close', 0, 0],
                                              ['inject', 0, 1, ['DiscRsp', 1, 0x50, 0x40]]]),
